@@ -79,6 +79,7 @@ type (
 		wg                  sync.WaitGroup
 		singletonExecutions map[string]any
 		singletonMut        sync.Mutex
+		onceMut             sync.Mutex
 		postProcessors      []func() error
 		dual                bool
 		options             *Options
@@ -1499,6 +1500,13 @@ func FunExpr(query *Query, current Map, expr *sqlparser.FuncExpr, opts ...ExprOp
 				slice, e := FuncArgReader(query, current, expr.Exprs)
 				if e != nil {
 					return nil, e
+				}
+				// the workers of a PARALLEL join may all get here for the same call:
+				// one of them invokes the function, the others take its result
+				query.onceMut.Lock()
+				defer query.onceMut.Unlock()
+				if rs, ok := query.singleton(name); ok {
+					return rs, nil
 				}
 				rs, err := function(query, current, nil, slice)
 				if err != nil {
